@@ -34,8 +34,13 @@ Section Fit.
     let '(g, st) := r in
     (if st then mk_gst (sel g) (xsel g) (ysel g) (tl (sst g)) (first g) else g, st).
 
-  (* stage of a chain: previous state (None = never fitted), configuration, the initial
-     selections a cold start makes before the loop (FPS family), the score stream *)
+  (* one call of fit: previous state (None = never fitted), configuration, the initial
+     selections a cold start makes before the loop (FPS family), and the score vectors the
+     implementation presents to the arg-max DURING THIS FIT (a cold fit discards everything a
+     previous fit left behind; a warm start keeps selections and first_score_) *)
+  Definition with_stream (g : gst stream) (str : stream) : gst stream :=
+    mk_gst (sel g) (xsel g) (ysel g) str (first g).
+
   Definition sfit (prev : option (gst stream)) (c : cfg) (inits : list nat) (str : stream)
     : outcome :=
     if c_full c && has_thr (c_thr c) then Rejected else
@@ -47,7 +52,8 @@ Section Fit.
           | None => Rejected
           | Some g =>
               if Nat.eqb (length (sel g)) 0 then Rejected
-              else let '(g', st) := s_pop (s_run (c_thr c) (k - length (sel g)) g) in Fitted g' st
+              else let '(g', st) := s_pop (s_run (c_thr c) (k - length (sel g)) (with_stream g str)) in
+                   Fitted g' st
           end
         else
           let g0 := fold_left s_post inits (mk_gst [] [] [] (repeat [] (length inits) ++ str) None) in
@@ -95,20 +101,25 @@ Definition sobs_ok cand (hasy : bool) (g : gst stream) (stopped : bool) (n0 : na
      | None => true end
   && Bool.eqb stopped (so_stopped o).
 
-(* a chain of fits on the same data; each stage: cfg, observed outcome (None = ValueError).
-   A chain is not continued after a threshold stop (the buffers are then inconsistent). *)
-Fixpoint schain_ok cand ycand (inits : list nat) (str : stream)
-         (prev : option (gst stream)) (stages : list (cfg * option sobs)) : bool :=
+(* a chain of fits on the same data; each stage: cfg, initial selections (cold), the score
+   vectors of that fit, observed outcome (None = ValueError).  Cold re-fits of an already
+   fitted object may occur anywhere in the chain.  A chain is not continued by a warm start
+   after a threshold stop (the buffers are then inconsistent). *)
+Fixpoint schain_ok cand ycand (prev : option (gst stream))
+         (stages : list (cfg * list nat * stream * option sobs)) : bool :=
   match stages with
   | [] => true
-  | (c, o) :: rest =>
+  | (c, inits, str, o) :: rest =>
       match sfit cand ycand prev c inits str, o with
-      | Rejected, None => schain_ok cand ycand inits str prev rest
+      | Rejected, None => schain_ok cand ycand prev rest
       | Fitted g st, Some ob =>
           sobs_ok cand (match ycand with Some _ => true | None => false end) g st
                   (n_before prev c inits) ob
-          && (if st then match rest with [] => true | _ => false end
-              else schain_ok cand ycand inits str (Some g) rest)
+          && (if st then match rest with
+                         | [] => true
+                         | (c', _, _, _) :: _ => negb (c_warm c') && schain_ok cand ycand (Some g) rest
+                         end
+              else schain_ok cand ycand (Some g) rest)
       | _, _ => false
       end
   end.
